@@ -91,61 +91,54 @@ func runC10(c *Ctx) {
 	// ---- decoder ---------------------------------------------------------------------------
 	var dfs []cborField
 	resetFirst := false
-	for _, b := range dec.SSA.DomPreorder() {
-		for _, in := range b.Instrs {
-			st, ok := in.(*ssa.Store)
-			if !ok {
-				continue
-			}
-			a := c.E(st.Addr)
-			if st.Addr == ssa.Value(dec.SSA.Params[0]) || (a.Op == "param" && a.Name == recv) {
-				if v := c.E(st.Val); v.Op == "const" && strings.HasPrefix(v.Name, "zero:") && b == dec.SSA.Blocks[0] {
-					resetFirst = true
-				}
-				continue
-			}
-			p := fieldPath(a, recv)
-			if strings.Contains(p, "?") {
-				continue
-			}
-			v := c.E(st.Val)
-			f := cborField{path: p, cap: -1, pos: st.Pos()}
-			switch {
-			case v.Op == "extract" && v.Args[0].Op == "call" && nameMatches(v.Args[0].Name, "cbor-gen.ReadCid"):
-				f.kind = "cid"
-			case v.Op == "extract" && v.Args[0].Op == "call" && nameMatches(v.Args[0].Name, "cbor-gen.ReadString"):
-				f.kind = "3"
-				f.cap = 8192 // cbg.MaxLength, enforced inside ReadString (validated in thorough tier)
-			case v.Op == "makeslice":
-				n := v.Args[0]
-				k, ok := c.capAt(b, n)
-				key := dec.Name + " › make " + p
-				if !ok {
-					c.Bad("C10.B1-bounded-alloc", key, st.Pos(), "allocation sized by the input value "+abbreviate(n.String())+" is not dominated by an upper-bound test on that value: a hostile length allocates without limit")
-				} else {
-					c.OK("C10.B1-bounded-alloc", key, st.Pos(), "allocation of "+p+" dominated by size <= "+itoa(int(k)))
-				}
-				f.cap = k
-				// major type required for the header this size came from
-				for _, fct := range c.FactsAt(b) {
-					if fct.Val {
-						continue
-					}
-					if m, ok := Match(Bin("==", Extract("0", Bind("h")), Bind("maj")), fct.Cond); ok {
-						_ = m
-					}
-				}
-				f.kind = c10MajorFor(c, b, n)
-			default:
-				continue
-			}
-			dfs = append(dfs, f)
+	// (the decoder may be split into unexported helpers: stores are taken in execution order through them, field
+	// paths in the decoder's terms, caps and major-type tests from the function the allocation lies in)
+	c.WalkInl(dec.SSA, 2, func(ev InlEvent) {
+		in := ev.In
+		b := in.Block()
+		st, ok := in.(*ssa.Store)
+		if !ok {
+			return
 		}
-	}
+		a := subst(c.E(st.Addr), ev.Env)
+		if ev.Fn == dec.SSA && (st.Addr == ssa.Value(dec.SSA.Params[0]) || (a.Op == "param" && a.Name == recv)) {
+			if v := c.E(st.Val); v.Op == "const" && strings.HasPrefix(v.Name, "zero:") && b == dec.SSA.Blocks[0] {
+				resetFirst = true
+			}
+			return
+		}
+		p := fieldPath(a, recv)
+		if strings.Contains(p, "?") {
+			return
+		}
+		v := c.E(st.Val)
+		f := cborField{path: p, cap: -1, pos: st.Pos()}
+		switch {
+		case v.Op == "extract" && v.Args[0].Op == "call" && nameMatches(v.Args[0].Name, "cbor-gen.ReadCid"):
+			f.kind = "cid"
+		case v.Op == "extract" && v.Args[0].Op == "call" && nameMatches(v.Args[0].Name, "cbor-gen.ReadString"):
+			f.kind = "3"
+			f.cap = 8192 // cbg.MaxLength, enforced inside ReadString (validated in thorough tier)
+		case v.Op == "makeslice":
+			n := v.Args[0]
+			k, ok := c.capAt(b, n)
+			key := dec.Name + " › make " + p
+			if !ok {
+				c.Bad("C10.B1-bounded-alloc", key, st.Pos(), "allocation sized by the input value "+abbreviate(n.String())+" is not dominated by an upper-bound test on that value: a hostile length allocates without limit")
+			} else {
+				c.OK("C10.B1-bounded-alloc", key, st.Pos(), "allocation of "+p+" dominated by size <= "+itoa(int(k)))
+			}
+			f.cap = k
+			f.kind = c10MajorFor(c, b, n)
+		default:
+			return
+		}
+		dfs = append(dfs, f)
+	})
 	c.Check(resetFirst, "C10.B1-bounded-alloc", dec.Name+" › receiver reset first", dec.SSA.Pos(), "decoder starts with *m = Message{}", "decoder does not reset the receiver: fields of a previously decoded message survive into one that lacks them")
 	// any other MakeSlice in the decoder with a non-constant size
-	instrs(dec.SSA, func(in ssa.Instruction) {
-		if mk, ok := in.(*ssa.MakeSlice); ok {
+	c.WalkInl(dec.SSA, 2, func(ev InlEvent) {
+		if mk, ok := ev.In.(*ssa.MakeSlice); ok {
 			n := c.E(mk.Len)
 			if _, isConst := constInt(n); isConst {
 				return
